@@ -224,6 +224,44 @@ def _derive_abs_table():
     return rows
 
 
+def _block_visitors():
+    """Per `ast` statement class that has child STATEMENT lists (computed from `ast` itself: a field that is
+    a list of stmt / excepthandler / match_case): the body of `RootContextBuilder.visit_<class>`
+    (ast.unparse, docstring dropped), or `<no visit_ method>`; and the bodies of `register` /
+    `register_stmts` (comments dropped by the parse)."""
+    import rattr.models.context._root_context as RC
+    tree = ast.parse(inspect.getsource(RC))
+    cls = next(n for n in tree.body if isinstance(n, ast.ClassDef) and n.name == "RootContextBuilder")
+    meths = {fn.name: fn for fn in cls.body if isinstance(fn, ast.FunctionDef)}
+
+    def body(fn):
+        b = list(fn.body)
+        if b and isinstance(b[0], ast.Expr) and isinstance(b[0].value, ast.Constant) and isinstance(b[0].value.value, str):
+            b = b[1:]
+        return [ast.unparse(x).replace("\n", " ; ") for x in b]
+
+    # the statement classes of THIS interpreter's grammar with nested statement lists
+    import re as _re
+    order = ["If", "For", "AsyncFor", "While", "With", "AsyncWith", "Try", "TryStar", "Match", "ClassDef",
+             "FunctionDef", "AsyncFunctionDef"]
+    have = sorted(c.__name__ for c in ast.stmt.__subclasses__()
+                  if _re.search(r"\b(stmt|excepthandler|match_case)\*", c.__doc__ or ""))
+    assert sorted(order) == have, ("statement classes with nested statement lists", have)
+    rows = [(c, " ; ".join(body(meths["visit_" + c])) if "visit_" + c in meths else "<no visit_ method>") for c in order]
+    # no visitor is installed any other way (no __getattr__, no base class, no setattr)
+    assert not cls.bases and "__getattr__" not in meths and "setattr(" not in inspect.getsource(RC)
+    reg = [f"{m}: {x}" for m in ("register", "register_stmts") for x in body(meths[m])]
+    return rows, reg
+
+
+def _project_root():
+    """`_is_project_root`, `find_project_root`, `find_pyproject_toml` (rattr/config/_util.py), statement by
+    statement."""
+    import rattr.config._util as CU
+    return [f"{fn.__name__}: {x}" for fn in (CU._is_project_root, CU.find_project_root, CU.find_pyproject_toml)
+            for x in _scan_locate(fn)]
+
+
 def tables():
     import rattr.analyser.file as F
     import rattr.results._find_call_target as R
@@ -267,6 +305,12 @@ def tables():
         f"def edgeSites : List String := {llist(_edge_sites()[0])}",
         "/-- `Import._module_name_and_spec` / `Import.module_name` -/",
         f"def importModuleName : List String := {llist(_edge_sites()[1])}",
+        "/-- per statement class with nested statement lists: the body of RootContextBuilder.visit_<class> -/",
+        "def blockVisitors : List (String × String) := " + llist(_block_visitors()[0], lambda r: f"({lstr(r[0])}, {lstr(r[1])})"),
+        "/-- `RootContextBuilder.register` / `register_stmts` -/",
+        f"def registerBodies : List String := {llist(_block_visitors()[1])}",
+        "/-- `_is_project_root` / `find_project_root` / `find_pyproject_toml`, statement by statement -/",
+        f"def projectRootOps : List String := {llist(_project_root())}",
         "/-- `find_module_in_path`, statement by statement -/",
         f"def locateOps : List String := {llist(_scan_locate(L.find_module_in_path))}",
     ]
